@@ -18,7 +18,7 @@ class Deadlock(Exception):
     pass
 
 
-def run_schedule(thunks, schedule, granularity='call', prefix=None, timeout=60.0, first=0):
+def run_schedule(thunks, schedule, granularity='call', prefix=None, timeout=60.0, first=0, line_files=()):
     """thunks: two zero-argument callables; schedule: [(who, count), ...]; -> (results, events) where results[i] is ('ok', value) or
     ('exc', exception) and events[i] the number of switch-point events thread i went through"""
     if prefix is None:
@@ -30,6 +30,8 @@ def run_schedule(thunks, schedule, granularity='call', prefix=None, timeout=60.0
     results = [None, None]
     pending = list(schedule)
     want_line = granularity == 'line'
+    # granularity 'hot': call events everywhere, line events too inside the files named by line_files (modules that own state shared between parses)
+    hot = tuple(line_files) if granularity == 'hot' else ()
     state = {'dead': False}
 
     def handoff(me):
@@ -57,7 +59,9 @@ def run_schedule(thunks, schedule, granularity='call', prefix=None, timeout=60.0
             if event != 'call' or not frame.f_code.co_filename.startswith(prefix):
                 return None
             tick()
-            return local if want_line else None
+            if want_line or (hot and frame.f_code.co_filename.endswith(hot)):
+                return local
+            return None
         return tracer
 
     def runner(me):
